@@ -561,3 +561,84 @@ impl<F: PrimeField> RefCS<F> {
         }
     }
 }
+
+// ---------------------------------------------------------------------------
+// Re-indexing of table references (used by statement deviations and by the
+// minimiser).
+
+pub fn map_expr(e: &mut Expr, f: &dyn Fn(usize) -> usize) {
+    match e {
+        Expr::V(i) => *i = f(*i),
+        Expr::Add(a, b) | Expr::Sub(a, b) => {
+            map_expr(a, f);
+            map_expr(b, f);
+        }
+        Expr::Neg(a) | Expr::Scale(a, _) => map_expr(a, f),
+        Expr::Terms(ts, _) => {
+            for (t, _) in ts.iter_mut() {
+                if let TermVar::V(i) = t {
+                    *i = f(*i);
+                }
+            }
+        }
+        _ => {}
+    }
+}
+
+fn map_val(v: &mut Val, f: &dyn Fn(usize) -> usize) {
+    match v {
+        Val::Lit(_) => {}
+        Val::Eval(e) | Val::EvalPlus(e, _) => map_expr(e, f),
+        Val::EvalMul(a, b) => {
+            map_expr(a, f);
+            map_expr(b, f);
+        }
+    }
+}
+
+pub fn map_op(op: &mut Op, f: &dyn Fn(usize) -> usize) {
+    match op {
+        Op::Alloc(Some(v)) => map_val(v, f),
+        Op::AllocMul(Some((l, r))) => {
+            map_val(l, f);
+            map_val(r, f);
+        }
+        Op::Mul(l, r) => {
+            map_expr(l, f);
+            map_expr(r, f);
+        }
+        Op::Constrain(e) => map_expr(e, f),
+        Op::Randomized(b) => {
+            for o in b.iter_mut() {
+                map_op(o, f);
+            }
+        }
+        Op::OverwriteGate { l, r, o, .. } => {
+            map_val(l, f);
+            map_val(r, f);
+            map_val(o, f);
+        }
+        _ => {}
+    }
+}
+
+pub fn map_statement(st: &mut Statement, f: &dyn Fn(usize) -> usize) {
+    for op in st.ops.iter_mut() {
+        map_op(op, f);
+    }
+}
+
+/// number of table entries an op produces (prover role, all assignments present)
+pub fn op_outputs(op: &Op) -> usize {
+    match op {
+        Op::Commit { .. } => 1,
+        Op::Alloc(Some(_)) => 1,
+        Op::AllocMul(Some(_)) | Op::Mul(..) => 3,
+        _ => 0,
+    }
+}
+
+/// length of the variable table at the end of phase 1
+pub fn phase1_table_len(st: &Statement) -> usize {
+    st.ops.iter().map(op_outputs).sum()
+}
